@@ -350,7 +350,9 @@ def t_queries(seed, n):
 
 # ------------------------------------------------------------------ every registered function x every kind of argument value
 
-TYPE_VALUES = [None, True, False, 0, 1, -1, 1.5, "", "a", "abc", "number", "(", "a{99999999999}", "(?a)(?u)a", "(?L)a", [], [1], ["a"], ["number"], [[1]],
+TYPE_VALUES = [None, True, False, 0, 1, -1, 1.5, "", "a", "abc", "number", "(", "a{99999999999}", "(?a)(?u)a", "(?L)a",
+               # patterns whose last character opens something: a lone backslash, an open class, an open group, an open quantifier, with and without a dot
+               "a.\\", "\\", ".\\", "[.", "a.[", "(a.", "a.{", "a.{1,", "[\\", ".*+", "a.|", [], [1], ["a"], ["number"], [[1]],
                {}, {"a": 1}, {"number": 1}]
 
 
